@@ -222,6 +222,8 @@ def run_check(mod, tier: str, seed: int) -> int:
     print(f"VERIF_SEED={seed} property={prop} tier={tier} workers={n_workers()}", flush=True)
     cases = mod.gen_cases(seed, tier)
     budget = getattr(mod, "BUDGET_S", {}).get(tier)
+    if os.environ.get("VERIF_BUDGET_S"):
+        budget = float(os.environ["VERIF_BUDGET_S"])
     try:
         outcomes, skipped = run_cases(mod.__name__, cases, budget_s=budget)
     except BrokenProcessPool:
